@@ -66,8 +66,18 @@ class CaseResult:
                     files=self.files)
 
 
-def _check(solver, cond, timeout_ms):
-    """Is ``pc => cond`` valid?  returns ('unsat'|'sat'|'unknown', model, seconds)."""
+def _check(solver, cond, timeout_ms, _retry=True):
+    """Is ``pc => cond`` valid?  returns ('unsat'|'sat'|'unknown', model, seconds).
+    An 'unknown' that used up the whole budget (a timeout, as opposed to the solver giving up on quantifiers at once)
+    is retried once with three times the budget: wall-clock budgets must not flip a verdict on a loaded machine."""
+    st, m, dt = _check_once(solver, cond, timeout_ms)
+    if st == "unknown" and _retry and dt * 1000 >= 0.8 * timeout_ms:
+        st, m, dt2 = _check_once(solver, cond, 3 * timeout_ms)
+        dt += dt2
+    return st, m, dt
+
+
+def _check_once(solver, cond, timeout_ms):
     t = time.time()
     solver.set("timeout", timeout_ms)
     if cond is True:
